@@ -4,6 +4,7 @@ CONSTANTS
   Keys = {k1, k2}
   NW = 2
   MaxDeps = 4
+  OriginalOffset = FALSE
   MaxFail = 1
   Shapes <- ShapesSameOwner
 INVARIANTS TypeOK NoOverlap QueueOrder AtMostOnce WaitOK
